@@ -162,7 +162,7 @@ def h_party(kind: int, u1: int, u2: int, email: int, name: int) -> str:
     post: _ == ""
     """
     fresh()
-    kind = cint(kind, 0, 4)
+    kind = GROUP - 1 if GROUP > 0 else cint(kind, 0, 4)      # party kind pinned per process when VERIF_PART is 1..5
     email = cint(email, 0, 2)
     name = cint(name, 0, 4)
     p = mk(PARTIES[kind], "p")
